@@ -6,7 +6,12 @@ Import ListNotations.
 Local Open Scope list_scope.
 
 Inductive op :=
-| OpChoose (i : Z) | OpUndo | OpRedo | OpGoto (spec : string) | OpReset | OpRead.
+| OpChoose (i : Z) | OpUndo | OpRedo | OpGoto (spec : string) | OpReset | OpRead
+| OpReload    (* save_state -> JSON -> load_state into a fresh engine, play continues there: by C05 (load_faithful)
+                 the situation is unchanged and both stacks are empty *)
+| OpSave      (* keep save_state() (after a JSON round trip) in the one save slot: no effect on the game *)
+| OpLoad.     (* load_state(slot) into the SAME engine: the saved situation, both stacks empty (no-op when the slot is
+                 empty).  The slot lives in [run]; [step] alone treats OpSave/OpLoad as no-ops. *)
 
 Inductive obs := ObsOk | ObsExc (e : exn) | ObsBool (b : bool).
 
@@ -55,13 +60,22 @@ Definition step (e : estate) (o : op) : estate * obs :=
                    end
   | OpReset => (reset_one_time e, ObsOk)
   | OpRead => (e, ObsOk)
+  | OpReload => (mkES (ec e) [] [] (escopes e) (elog e), ObsOk)
+  | OpSave | OpLoad => (e, ObsOk)
   end.
 
-Fixpoint run (e : estate) (ops : list op) : list (obs * view) :=
+Fixpoint run_slot (e : estate) (slot : option core) (ops : list op) : list (obs * view) :=
   match ops with
   | [] => []
-  | o :: r => let '(e', b) := step e o in (b, view_of e') :: run e' r
+  | OpSave :: r => (ObsOk, view_of e) :: run_slot e (Some (ec e)) r
+  | OpLoad :: r =>
+      match slot with
+      | Some c => let e' := mkES c [] [] (escopes e) (elog e) in (ObsOk, view_of e') :: run_slot e' slot r
+      | None => (ObsOk, view_of e) :: run_slot e slot r
+      end
+  | o :: r => let '(e', b) := step e o in (b, view_of e') :: run_slot e' slot r
   end.
+Definition run (e : estate) (ops : list op) : list (obs * view) := run_slot e None ops.
 
 Definition run_all (v0 : env) (ops : list op) : list (obs * view) :=
   match init orc ctxkeys st v0 with
